@@ -270,6 +270,30 @@ PLANS["X08"] = dict(
     rule="one event = one real call on the rings of one configuration; distinct = distinct event text", assumptions=[], trusted_base=["TLC 2026.09.04", "CommunityModules Json/IOUtils", "harness lattice projection"],
 )
 
+# ---- X09 -------------------------------------------------------------------------------------------
+
+
+def run_x09(ctx):
+    ctx.mc("TileFillMC", "TileFillMC_%s.cfg" % ctx.tier, workers=L.NCPU,
+           note="the transcription of tilecover.polygon() (walk with ring record, intersection choice, pairwise fill) covers exactly what it must on every closed lattice triangle of a 3x3 tile window, 4 units per tile (quick: every eighth first vertex)")
+    if ctx.tier == "thorough":
+        ctx.mc("TileFillMC", "TileFillMC_quads.cfg", workers=L.NCPU, note="the same for every simple closed quadrilateral, 2 units per tile")
+    ctx.mc_expect_violation("TileFillMC", "TileFillMC_bad.cfg", "NoError", workers=8,
+                            note="non-vacuity: line() without its closing correction of the ring record reports uneven intersections")
+    shards = ctx.gen("tilecover")
+    ctx.validate("TileFill_Trace", shards)
+    ctx.exhaustive = True
+    ctx.notes.append("exhaustive part: every closed triangle with vertices on the 13x13 lattice points of a 3x3 tile window (thorough; quick: first vertices sampled 1 in 8), every simple quadrilateral on the 7x7 lattice (thorough)")
+
+
+PLANS["X09"] = dict(
+    run=run_x09, signature=sig_default,
+    technique="TLA+ transcription of tilecover.polygon() - the grid walk of line() with its ring record across segments, the choice of scan-line intersections (no local extremum, successor in another row), sorting and pairwise fill - in exact arithmetic; TLC checks it against 'every tile the boundary passes through or that lies inside, nothing that lies outside' on every lattice triangle / quadrilateral, and the real covers of general-position polygons must equal it tile for tile",
+    level_text="extended coverage (no listed property): TLC evaluates the transcription of polygon() on every closed triangle with vertices on the lattice points of a 3x3 tile window at 4 units per tile (4.65 million; vertices on tile lines and corners, edges along tile lines and through corners included; quick: one first vertex in eight) and, thorough, on every simple quadrilateral at 2 units per tile (2.1 million), and requires: no uneven-intersections error, every tile whose inside the boundary passes through and every tile wholly inside covered, no tile wholly outside covered; a variant of line() without the closing correction of its ring record must violate this. The 'poly' events of the tilecover family (real Polygon / Ring / MultiPolygon / Geometry calls on lattice polygons with holes, 64 or 8192 units per tile) are then judged exactly: for figures in general position (no vertex on a tile line, no edge within a unit of a tile corner) the real cover must equal the transcription's, tile for tile, as the union over the members.",
+    level_note="Figures not in general position are left to C14's Must/May judgement (floating-point rounding decides at exact corner and edge crossings). The spec checks its own non-vacuity: the number of exactly judged events is reported.",
+    rule="one event = one real tilecover call on lattice polygons; distinct = distinct event text", assumptions=[], trusted_base=["TLC 2026.09.04", "CommunityModules Json/IOUtils", "harness lattice projection (inverse mercator guarded by maptile.Fraction)"],
+)
+
 # ---- C11 -------------------------------------------------------------------------------------------
 
 
